@@ -24,7 +24,7 @@ from hypothesis import strategies as st
 from vp.harness import pcode_gen as G
 
 NAMES = ["A", "B", "C"]
-ALLOWED_KINDS = {"mark", "quick", "wait", "block", "macro", "callmacro", "watch", "blank", "comment"}
+ALLOWED_KINDS = {"mark", "quick", "wait", "block", "macro", "callmacro", "watch", "alarm", "blank", "comment"}
 WATCH_COND = {"tag": "In2", "op": ">=", "val": 0, "unit": None}     # inputs are 0: true from the first evaluation
 
 
@@ -64,14 +64,52 @@ def _body_items(draw, callable_names: list, depth: int, max_items: int, allow_bl
 
 
 @st.composite
+def _interrupt_recursion(draw):
+    """a cycle of 1-3 macros in which one link is a `Call macro` inside a Watch or Alarm (condition true at once) in the
+    macro body; the other links are direct calls or calls nested in a Block"""
+    order = list(draw(st.permutations(NAMES)))
+    n = draw(st.integers(1, 3))
+    cyc = order[:n]
+    wrap = draw(st.integers(0, n - 1))
+    body = []
+    if draw(st.booleans()):
+        body.append(_leaf("mark"))
+    for i, name in enumerate(cyc):
+        call = _leaf("callmacro", name=cyc[(i + 1) % n])
+        items = [_leaf(draw(st.sampled_from(["mark", "mark", "quick"]))) for _ in range(draw(st.integers(0, 2)))]
+        if i == wrap:
+            ib = ([_leaf("mark")] if draw(st.booleans()) else []) + [call] + ([_leaf("mark")] if draw(st.booleans()) else [])
+            items.append({"k": draw(st.sampled_from(["watch", "watch", "alarm"])), "t": None, "cond": dict(WATCH_COND), "c": ib})
+        elif draw(st.integers(0, 3)) == 0:
+            items.append({"k": "block", "t": None, "c": [call], "end": "endblock", "end_t": None})
+        else:
+            items.append(call)
+        items.extend(_leaf("mark") for _ in range(draw(st.integers(0, 2))))
+        body.append({"k": "macro", "t": None, "name": name, "c": items})
+    for name in order[n:]:
+        if draw(st.booleans()):
+            body.append({"k": "macro", "t": None, "name": name, "c": [_leaf("mark")]})
+            body.append(_leaf("callmacro", name=name))
+    body.append(_leaf("mark"))
+    body.append(_leaf("callmacro", name=draw(st.sampled_from(cyc))))
+    body.append(_leaf("wait", d=1.0))
+    body.append(_leaf("mark"))
+    if draw(st.booleans()):
+        body.append(_leaf("callmacro", name=draw(st.sampled_from(cyc))))
+    return body
+
+
+@st.composite
 def programs(draw, max_top: int = 9, max_body: int = 4):
     """flavor 'dag'   : a body only calls alphabetically lower names that are already defined (no cycles, no undefined
                         calls); redefinitions are frequent;
     flavor 'noself': a body calls any other name (cycles of length 2-3, closing call first / later / nested in a block);
     flavor 'free'  : any name anywhere (self recursion, calls before definition)."""
-    flavor = draw(st.sampled_from(["dag", "dag", "dag", "noself", "noself", "noself", "free"]))
+    flavor = draw(st.sampled_from(["dag", "dag", "dag", "noself", "noself", "noself", "free", "intrec"]))
     defined: list = []
     body = []
+    if flavor == "intrec":
+        return {"base": None, "body": draw(_interrupt_recursion()), "flavor": flavor}
 
     def callable_for(name):
         if flavor == "dag":
@@ -158,8 +196,10 @@ def valid_tree(tree) -> bool:
             elif k == "callmacro":
                 if n.get("name") not in NAMES:
                     return False
-            elif k == "watch":
-                if where != "top" or n.get("cond") != WATCH_COND or not n.get("c"):
+            elif k in ("watch", "alarm"):
+                # top level: Watch only (followed by a synchronising Wait); inside a macro body: Watch or Alarm (only judged
+                # when it takes part in a recursive call chain, see simulate)
+                if where not in ("top", "macro") or (where == "top" and k != "watch") or n.get("cond") != WATCH_COND or not n.get("c"):
                     return False
                 if any((not isinstance(c, dict)) or c.get("k") not in ("mark", "callmacro", "quick") or c.get("t") is not None
                        or (c.get("k") == "callmacro" and c.get("name") not in NAMES) for c in n["c"]):
@@ -172,7 +212,7 @@ def valid_tree(tree) -> bool:
             elif k == "wait":
                 if not isinstance(n.get("d"), (int, float)) or isinstance(n.get("d"), bool) or not (0 <= n["d"] <= 1.0):
                     return False
-            if where == "block" and k in ("macro", "watch", "block"):
+            if where == "block" and k in ("macro", "watch", "alarm", "block"):
                 return False
         return True
     return ok(tree["body"], "top")
@@ -217,7 +257,7 @@ def records(tree) -> list:
         r = recs[i]
         out.append(r)
         i += 1
-        if r["kind"] == "watch":
+        if r["kind"] == "watch" and r["depth"] == 0:
             while i < len(recs) and recs[i]["depth"] > r["depth"]:
                 out.append(recs[i])
                 i += 1
@@ -258,10 +298,13 @@ class Sim:
     def __init__(self):
         self.steps: list = []          # dicts: line, kind, eff, resolved (def id for calls), stack (tuple of def ids)
         self.fails: list = []          # (step index, reason 'cycle'|'closing'|'undefined')
-        self.outcome = "complete"      # complete | cycle | undefined
+        self.outcome = "complete"      # complete | cycle | undefined | unjudged
         self.cycle_len = 0
         self.cycle_cls = ""
         self.cycle_in_watch = False    # the failing call chain runs in a Watch body (the main thread is not part of it)
+        self.cycle_via_interrupt = False   # the chain passes a Watch/Alarm inside a macro body: only the first (static)
+        #                                    failure point has a well-defined trace, later ones are accepted by line only
+        self.unjudged_at = None        # step index where a Watch/Alarm inside a macro body starts outside any recursive chain
         self.ticks = 0.0
         self.watch_steps: dict = {}
         self.defs: list = []           # ids of all Macro lines (textual order)
@@ -278,32 +321,31 @@ class Sim:
 
 
 def _calls_in(node, nested=False):
-    """(call node, is_direct_child, index among direct call children) for every Call macro below a macro node"""
+    """(call node, is_direct_child, reached through a Watch/Alarm) for every Call macro below a macro node"""
     out = []
-    direct_i = 0
     for ch in node["children"]:
         if ch["rec"]["kind"] == "callmacro":
-            out.append((ch, True, direct_i))
-            direct_i += 1
+            out.append((ch, True, False))
         elif ch["children"]:
-            for sub in _all_calls(ch):
-                out.append((sub, False, -1))
+            for sub, intr in _all_calls(ch, ch["rec"]["kind"] in ("watch", "alarm")):
+                out.append((sub, False, intr))
     return out
 
 
-def _all_calls(node):
+def _all_calls(node, intr=False):
     out = []
     for ch in node["children"]:
         if ch["rec"]["kind"] == "callmacro":
-            out.append(ch)
-        out.extend(_all_calls(ch))
+            out.append((ch, intr))
+        out.extend(_all_calls(ch, intr or ch["rec"]["kind"] in ("watch", "alarm")))
     return out
 
 
 def _cycle_through(name: str, table: dict, mode: str):
     """shortest call path name -> ... -> name through the current definitions, or None.
     mode 'first': follow only the first direct Call child that names a defined macro (what a shallow check sees);
-    mode 'direct': any direct Call child; mode 'any': calls at any depth of the body."""
+    mode 'direct': any direct Call child; mode 'blocks': also calls nested in Blocks; mode 'any': calls at any depth of
+    the body including Watch/Alarm bodies."""
     frontier = [(name, [name])]
     seen = {name}
     while frontier:
@@ -314,6 +356,8 @@ def _cycle_through(name: str, table: dict, mode: str):
                 cand = [c for c in calls if c[1] and c[0]["rec"]["name"] in table][:1]
             elif mode == "direct":
                 cand = [c for c in calls if c[1]]
+            elif mode == "blocks":
+                cand = [c for c in calls if not c[2]]
             else:
                 cand = calls
             for c, _d, _i in cand:
@@ -359,13 +403,22 @@ def simulate(recs, sync: bool = True) -> Sim:
             elif k == "macro":
                 table[r["name"]] = n
                 step(r, stack=stack_defs, blocks=blocks)
-            elif k == "watch":
+            elif k in ("watch", "alarm"):
+                if stack_names:
+                    # Watch/Alarm inside a macro body.  Its body runs concurrently with the rest of the macro and re-arms in ways
+                    # the statement says nothing about, so it is only followed as part of a recursive call chain (a call that
+                    # can reach itself is already on the path); otherwise judging stops here (prefix only).
+                    if not sim.fails:
+                        sim.unjudged_at = len(sim.steps)
+                        raise _Stop()
+                    sim.cycle_via_interrupt = True
                 step(r, stack=stack_defs, blocks=blocks)
                 before = len(sim.steps)
                 sim.ticks += 3
+                was = in_watch[0]
                 in_watch[0] = True
                 run(n["children"], stack_names, stack_defs, blocks)
-                in_watch[0] = False
+                in_watch[0] = was
                 sim.watch_steps[r["id"]] = len(sim.steps) - before
             elif k == "callmacro":
                 idx = step(r, stack=stack_defs, blocks=blocks)
@@ -386,8 +439,10 @@ def simulate(recs, sync: bool = True) -> Sim:
                             sim.cycle_cls = "first-call"
                         elif _cycle_through(name, table, "direct") is not None:
                             sim.cycle_cls = "later-call"
-                        else:
+                        elif _cycle_through(name, table, "blocks") is not None:
                             sim.cycle_cls = "nested-call"
+                        else:
+                            sim.cycle_cls = "interrupt-call"    # only through a call in a Watch/Alarm body inside a macro
                 sim.steps[idx]["resolved"] = d["rec"]["id"]
                 run(d["children"], stack_names + [name], stack_defs + [d["rec"]["id"]], blocks)
                 sim.steps[idx]["done"] = len(sim.steps)
@@ -399,7 +454,9 @@ def simulate(recs, sync: bool = True) -> Sim:
         run(top, [], [])
     except _Stop:
         pass
-    if any(f[1] in ("cycle", "closing") for f in sim.fails):
+    if sim.unjudged_at is not None:
+        sim.outcome = "unjudged"
+    elif any(f[1] in ("cycle", "closing") for f in sim.fails):
         sim.outcome = "cycle"
         sim.cycle_in_watch = sim.steps[sim.fails[0][0]]["watch"]
     elif sim.fails:
